@@ -10,51 +10,53 @@ use vh_lite::{read_cases, drive, drive_group, quiet_panics, Out};
 
 mod tc_right__topar;
 mod tc_left__gen;
-mod tc_left__runpar;
-mod tc_left__strpar;
-mod tc_nonlin__ren;
-mod mutual__to;
-mod mutual__srcto;
-mod mutual__ren;
-mod scc_chain__to;
-mod scc_chain__strpar;
-mod repeated__par;
-mod repeated__strpar;
-mod three_dyn__ren;
-mod conds__ser;
-mod conds__src2;
-mod conds__perm2;
-mod count_up__pari;
-mod multi_head__perm1;
-mod facts__mrt;
-mod facts__init;
+mod tc_left__init3;
+mod tc_left__str;
+mod tc_nonlin__perm1;
+mod mutual__par;
+mod mutual__src1;
+mod mutual__runpar;
+mod mutual__strpar;
+mod scc_chain__ren;
+mod consts__ser;
+mod repeated__ren;
+mod three_dyn__to;
+mod three_dyn__strpar;
+mod conds__mrt;
+mod conds__init;
+mod conds__permpar;
+mod count_up__topar;
+mod multi_head__ren;
+mod facts__src0;
+mod facts__runhead;
 mod facts__u64;
 mod opt_cols__src0;
-mod opt_cols__srcpar;
-mod same_gen__topar;
-mod not_reorderable__ser;
-mod not_reorderable__permpar;
-mod pre_join_rec__ren;
-mod two_inputs__mrt;
-mod two_inputs__init;
-mod two_inputs__u64;
-mod ternary__perm1;
-mod bound_mix__par;
-mod bound_mix__strpar;
-mod join_chain__str;
-mod reach__pari;
-mod self_join3__pari;
-mod lag_right__ren;
-mod lag_left__to;
-mod lag_mid__par;
-mod lag_mid__strpar;
-mod multi_head_rec__pari;
-mod sp_dual__to;
-mod sp_dual__srcto;
-mod sp_dual__ren;
-mod longest_capped__par;
-mod set_reach__topar;
-mod set_reach__srcred;
+mod opt_cols__runhead;
+mod same_gen__pari;
+mod same_gen__u64;
+mod not_reorderable__perm2;
+mod pre_join_rec__perm1;
+mod two_inputs__topar;
+mod two_inputs__srcred;
+mod two_inputs__perm2;
+mod wild__pari;
+mod ternary__str;
+mod bound_mix__ren;
+mod join_chain__perm1;
+mod cond_simple_join__par;
+mod zero_arity__par;
+mod lag_right__to;
+mod lag_right__strpar;
+mod lag_three__pari;
+mod lag_mid__ren;
+mod lag_late_delta__to;
+mod multi_head_rec__exppar;
+mod sp_dual__gen;
+mod sp_dual__init3;
+mod sp_weighted__ser;
+mod longest_capped__to;
+mod set_reach__mrt;
+mod set_reach__init;
 mod bset__to;
 mod opt_lat__par;
 mod lex_dual_lat__par;
@@ -63,104 +65,108 @@ mod lat_pre_join__ser;
 mod lat_val_bound__ser;
 mod lat_input__run;
 mod lat_input__redecl;
-mod count_paths__topar;
-mod count_paths__srcred;
-mod neg_basic__to;
-mod neg_basic__srcto;
-mod neg_basic__ren;
-mod agg_depth__par;
-mod agg_lattice__topar;
-mod neg_rec_after__exppar;
-mod agg_empty__topar;
-mod agg_const_args__pari;
-mod disj__pari;
-mod disj__src2;
+mod count_paths__pari;
+mod count_paths__src2;
+mod count_paths__srcpar;
+mod neg_basic__gen;
+mod neg_basic__init3;
+mod neg_basic__exp;
+mod agg_depth__to;
+mod agg_user__par;
+mod agg_bound_mix__par;
+mod agg_empty_rel__par;
+mod agg_const_args__exppar;
+mod disj__topar;
+mod disj__srcred;
 mod disj__perm2;
 mod disj_nested__exp;
 mod rep_expr__par;
 mod multi_head_disj__exppar;
 mod mac_basic__pari;
 mod mac_basic__src2;
-mod mac_basic__exppar;
-mod mac_nested__pari;
-mod mac_local_names__ser;
-mod mac_block__exp;
-mod stress_lat__par;
-mod rnd_core_01__ser;
-mod rnd_core_03__pari;
-mod rnd_core_06__par;
-mod rnd_core_09__ser;
-mod rnd_core_11__pari;
-mod rnd_core_14__par;
-mod rnd_core_17__ser;
-mod rnd_core_19__pari;
-mod rnd_core_22__par;
-mod rnd_core_25__ser;
-mod rnd_core_27__pari;
-mod rnd_core_30__par;
-mod rnd_agg_03__ser;
-mod rnd_agg_05__pari;
-mod rnd_agg_08__par;
-mod rnd_agg_11__ser;
-mod rnd_agg_13__pari;
-mod rnd_prec_01__par;
-mod rnd_prec_02__topar;
-mod rnd_prec_04__pari;
-mod rnd_prec_06__ser;
-mod rnd_prec_07__to;
-mod rnd_prea_01__par;
-mod rnd_prea_04__ser;
-mod rnd_prea_06__pari;
+mod mac_basic__srcpar;
+mod mac_nested__ser;
+mod mac_gensym_disj__exp;
+mod mac_block__par;
+mod mac_disj__exppar;
+mod stress_rel__par;
+mod rnd_core_03__ser;
+mod rnd_core_05__pari;
+mod rnd_core_08__par;
+mod rnd_core_11__ser;
+mod rnd_core_13__pari;
+mod rnd_core_16__par;
+mod rnd_core_19__ser;
+mod rnd_core_21__pari;
+mod rnd_core_24__par;
+mod rnd_core_27__ser;
+mod rnd_core_29__pari;
+mod rnd_agg_02__par;
+mod rnd_agg_05__ser;
+mod rnd_agg_07__pari;
+mod rnd_agg_10__par;
+mod rnd_agg_13__ser;
+mod rnd_agg_15__pari;
+mod rnd_prec_02__pari;
+mod rnd_prec_04__ser;
+mod rnd_prec_05__to;
+mod rnd_prec_07__par;
+mod rnd_prec_08__topar;
+mod rnd_prea_03__par;
+mod rnd_prea_06__ser;
+mod rnd_prea_08__pari;
 
 fn lookup(name: &str) -> fn() -> Box<dyn Driven> {
    match name {
       "tc_right__topar" => tc_right__topar::make,
       "tc_left__gen" => tc_left__gen::make,
-      "tc_left__runpar" => tc_left__runpar::make,
-      "tc_left__strpar" => tc_left__strpar::make,
-      "tc_nonlin__ren" => tc_nonlin__ren::make,
-      "mutual__to" => mutual__to::make,
-      "mutual__srcto" => mutual__srcto::make,
-      "mutual__ren" => mutual__ren::make,
-      "scc_chain__to" => scc_chain__to::make,
-      "scc_chain__strpar" => scc_chain__strpar::make,
-      "repeated__par" => repeated__par::make,
-      "repeated__strpar" => repeated__strpar::make,
-      "three_dyn__ren" => three_dyn__ren::make,
-      "conds__ser" => conds__ser::make,
-      "conds__src2" => conds__src2::make,
-      "conds__perm2" => conds__perm2::make,
-      "count_up__pari" => count_up__pari::make,
-      "multi_head__perm1" => multi_head__perm1::make,
-      "facts__mrt" => facts__mrt::make,
-      "facts__init" => facts__init::make,
+      "tc_left__init3" => tc_left__init3::make,
+      "tc_left__str" => tc_left__str::make,
+      "tc_nonlin__perm1" => tc_nonlin__perm1::make,
+      "mutual__par" => mutual__par::make,
+      "mutual__src1" => mutual__src1::make,
+      "mutual__runpar" => mutual__runpar::make,
+      "mutual__strpar" => mutual__strpar::make,
+      "scc_chain__ren" => scc_chain__ren::make,
+      "consts__ser" => consts__ser::make,
+      "repeated__ren" => repeated__ren::make,
+      "three_dyn__to" => three_dyn__to::make,
+      "three_dyn__strpar" => three_dyn__strpar::make,
+      "conds__mrt" => conds__mrt::make,
+      "conds__init" => conds__init::make,
+      "conds__permpar" => conds__permpar::make,
+      "count_up__topar" => count_up__topar::make,
+      "multi_head__ren" => multi_head__ren::make,
+      "facts__src0" => facts__src0::make,
+      "facts__runhead" => facts__runhead::make,
       "facts__u64" => facts__u64::make,
       "opt_cols__src0" => opt_cols__src0::make,
-      "opt_cols__srcpar" => opt_cols__srcpar::make,
-      "same_gen__topar" => same_gen__topar::make,
-      "not_reorderable__ser" => not_reorderable__ser::make,
-      "not_reorderable__permpar" => not_reorderable__permpar::make,
-      "pre_join_rec__ren" => pre_join_rec__ren::make,
-      "two_inputs__mrt" => two_inputs__mrt::make,
-      "two_inputs__init" => two_inputs__init::make,
-      "two_inputs__u64" => two_inputs__u64::make,
-      "ternary__perm1" => ternary__perm1::make,
-      "bound_mix__par" => bound_mix__par::make,
-      "bound_mix__strpar" => bound_mix__strpar::make,
-      "join_chain__str" => join_chain__str::make,
-      "reach__pari" => reach__pari::make,
-      "self_join3__pari" => self_join3__pari::make,
-      "lag_right__ren" => lag_right__ren::make,
-      "lag_left__to" => lag_left__to::make,
-      "lag_mid__par" => lag_mid__par::make,
-      "lag_mid__strpar" => lag_mid__strpar::make,
-      "multi_head_rec__pari" => multi_head_rec__pari::make,
-      "sp_dual__to" => sp_dual__to::make,
-      "sp_dual__srcto" => sp_dual__srcto::make,
-      "sp_dual__ren" => sp_dual__ren::make,
-      "longest_capped__par" => longest_capped__par::make,
-      "set_reach__topar" => set_reach__topar::make,
-      "set_reach__srcred" => set_reach__srcred::make,
+      "opt_cols__runhead" => opt_cols__runhead::make,
+      "same_gen__pari" => same_gen__pari::make,
+      "same_gen__u64" => same_gen__u64::make,
+      "not_reorderable__perm2" => not_reorderable__perm2::make,
+      "pre_join_rec__perm1" => pre_join_rec__perm1::make,
+      "two_inputs__topar" => two_inputs__topar::make,
+      "two_inputs__srcred" => two_inputs__srcred::make,
+      "two_inputs__perm2" => two_inputs__perm2::make,
+      "wild__pari" => wild__pari::make,
+      "ternary__str" => ternary__str::make,
+      "bound_mix__ren" => bound_mix__ren::make,
+      "join_chain__perm1" => join_chain__perm1::make,
+      "cond_simple_join__par" => cond_simple_join__par::make,
+      "zero_arity__par" => zero_arity__par::make,
+      "lag_right__to" => lag_right__to::make,
+      "lag_right__strpar" => lag_right__strpar::make,
+      "lag_three__pari" => lag_three__pari::make,
+      "lag_mid__ren" => lag_mid__ren::make,
+      "lag_late_delta__to" => lag_late_delta__to::make,
+      "multi_head_rec__exppar" => multi_head_rec__exppar::make,
+      "sp_dual__gen" => sp_dual__gen::make,
+      "sp_dual__init3" => sp_dual__init3::make,
+      "sp_weighted__ser" => sp_weighted__ser::make,
+      "longest_capped__to" => longest_capped__to::make,
+      "set_reach__mrt" => set_reach__mrt::make,
+      "set_reach__init" => set_reach__init::make,
       "bset__to" => bset__to::make,
       "opt_lat__par" => opt_lat__par::make,
       "lex_dual_lat__par" => lex_dual_lat__par::make,
@@ -169,54 +175,56 @@ fn lookup(name: &str) -> fn() -> Box<dyn Driven> {
       "lat_val_bound__ser" => lat_val_bound__ser::make,
       "lat_input__run" => lat_input__run::make,
       "lat_input__redecl" => lat_input__redecl::make,
-      "count_paths__topar" => count_paths__topar::make,
-      "count_paths__srcred" => count_paths__srcred::make,
-      "neg_basic__to" => neg_basic__to::make,
-      "neg_basic__srcto" => neg_basic__srcto::make,
-      "neg_basic__ren" => neg_basic__ren::make,
-      "agg_depth__par" => agg_depth__par::make,
-      "agg_lattice__topar" => agg_lattice__topar::make,
-      "neg_rec_after__exppar" => neg_rec_after__exppar::make,
-      "agg_empty__topar" => agg_empty__topar::make,
-      "agg_const_args__pari" => agg_const_args__pari::make,
-      "disj__pari" => disj__pari::make,
-      "disj__src2" => disj__src2::make,
+      "count_paths__pari" => count_paths__pari::make,
+      "count_paths__src2" => count_paths__src2::make,
+      "count_paths__srcpar" => count_paths__srcpar::make,
+      "neg_basic__gen" => neg_basic__gen::make,
+      "neg_basic__init3" => neg_basic__init3::make,
+      "neg_basic__exp" => neg_basic__exp::make,
+      "agg_depth__to" => agg_depth__to::make,
+      "agg_user__par" => agg_user__par::make,
+      "agg_bound_mix__par" => agg_bound_mix__par::make,
+      "agg_empty_rel__par" => agg_empty_rel__par::make,
+      "agg_const_args__exppar" => agg_const_args__exppar::make,
+      "disj__topar" => disj__topar::make,
+      "disj__srcred" => disj__srcred::make,
       "disj__perm2" => disj__perm2::make,
       "disj_nested__exp" => disj_nested__exp::make,
       "rep_expr__par" => rep_expr__par::make,
       "multi_head_disj__exppar" => multi_head_disj__exppar::make,
       "mac_basic__pari" => mac_basic__pari::make,
       "mac_basic__src2" => mac_basic__src2::make,
-      "mac_basic__exppar" => mac_basic__exppar::make,
-      "mac_nested__pari" => mac_nested__pari::make,
-      "mac_local_names__ser" => mac_local_names__ser::make,
-      "mac_block__exp" => mac_block__exp::make,
-      "stress_lat__par" => stress_lat__par::make,
-      "rnd_core_01__ser" => rnd_core_01__ser::make,
-      "rnd_core_03__pari" => rnd_core_03__pari::make,
-      "rnd_core_06__par" => rnd_core_06__par::make,
-      "rnd_core_09__ser" => rnd_core_09__ser::make,
-      "rnd_core_11__pari" => rnd_core_11__pari::make,
-      "rnd_core_14__par" => rnd_core_14__par::make,
-      "rnd_core_17__ser" => rnd_core_17__ser::make,
-      "rnd_core_19__pari" => rnd_core_19__pari::make,
-      "rnd_core_22__par" => rnd_core_22__par::make,
-      "rnd_core_25__ser" => rnd_core_25__ser::make,
-      "rnd_core_27__pari" => rnd_core_27__pari::make,
-      "rnd_core_30__par" => rnd_core_30__par::make,
-      "rnd_agg_03__ser" => rnd_agg_03__ser::make,
-      "rnd_agg_05__pari" => rnd_agg_05__pari::make,
-      "rnd_agg_08__par" => rnd_agg_08__par::make,
-      "rnd_agg_11__ser" => rnd_agg_11__ser::make,
-      "rnd_agg_13__pari" => rnd_agg_13__pari::make,
-      "rnd_prec_01__par" => rnd_prec_01__par::make,
-      "rnd_prec_02__topar" => rnd_prec_02__topar::make,
-      "rnd_prec_04__pari" => rnd_prec_04__pari::make,
-      "rnd_prec_06__ser" => rnd_prec_06__ser::make,
-      "rnd_prec_07__to" => rnd_prec_07__to::make,
-      "rnd_prea_01__par" => rnd_prea_01__par::make,
-      "rnd_prea_04__ser" => rnd_prea_04__ser::make,
-      "rnd_prea_06__pari" => rnd_prea_06__pari::make,
+      "mac_basic__srcpar" => mac_basic__srcpar::make,
+      "mac_nested__ser" => mac_nested__ser::make,
+      "mac_gensym_disj__exp" => mac_gensym_disj__exp::make,
+      "mac_block__par" => mac_block__par::make,
+      "mac_disj__exppar" => mac_disj__exppar::make,
+      "stress_rel__par" => stress_rel__par::make,
+      "rnd_core_03__ser" => rnd_core_03__ser::make,
+      "rnd_core_05__pari" => rnd_core_05__pari::make,
+      "rnd_core_08__par" => rnd_core_08__par::make,
+      "rnd_core_11__ser" => rnd_core_11__ser::make,
+      "rnd_core_13__pari" => rnd_core_13__pari::make,
+      "rnd_core_16__par" => rnd_core_16__par::make,
+      "rnd_core_19__ser" => rnd_core_19__ser::make,
+      "rnd_core_21__pari" => rnd_core_21__pari::make,
+      "rnd_core_24__par" => rnd_core_24__par::make,
+      "rnd_core_27__ser" => rnd_core_27__ser::make,
+      "rnd_core_29__pari" => rnd_core_29__pari::make,
+      "rnd_agg_02__par" => rnd_agg_02__par::make,
+      "rnd_agg_05__ser" => rnd_agg_05__ser::make,
+      "rnd_agg_07__pari" => rnd_agg_07__pari::make,
+      "rnd_agg_10__par" => rnd_agg_10__par::make,
+      "rnd_agg_13__ser" => rnd_agg_13__ser::make,
+      "rnd_agg_15__pari" => rnd_agg_15__pari::make,
+      "rnd_prec_02__pari" => rnd_prec_02__pari::make,
+      "rnd_prec_04__ser" => rnd_prec_04__ser::make,
+      "rnd_prec_05__to" => rnd_prec_05__to::make,
+      "rnd_prec_07__par" => rnd_prec_07__par::make,
+      "rnd_prec_08__topar" => rnd_prec_08__topar::make,
+      "rnd_prea_03__par" => rnd_prea_03__par::make,
+      "rnd_prea_06__ser" => rnd_prea_06__ser::make,
+      "rnd_prea_08__pari" => rnd_prea_08__pari::make,
       _ => panic!("no such program variant in this shard: {}", name),
    }
 }
